@@ -4,6 +4,7 @@ import (
 	"fmt"
 	"go/token"
 	"go/types"
+	"strings"
 
 	"golang.org/x/tools/go/ssa"
 )
@@ -15,6 +16,46 @@ func init() {
 	register(&Rule{ID: "JSON-stringify", Props: []string{"C11"}, Min: 4,
 		Doc: "P: in the stringify walker, the push of an object onto the cycle stack is dominated by the membership loop over that stack whose hit raises TypeError, and is followed - before anything that can panic - by a deferred pop (an exception from toJSON/getters must not leave the object on the stack); every store to the gap is bounded to 10 (slice to 10 under len > 10, or a count clamped to 0..10)",
 		Run: ruleJSONStringify})
+	register(&Rule{ID: "FRESH-put", Props: []string{"C11", "C07"}, Min: 1,
+		Doc: "G (census): [[Put]] (8.12.5) asks [[CanPut]] up the prototype chain, calls an inherited setter and gives up on an inherited read-only property; ES5 never uses it to give a property to an object it has just created (object and array literals, the results of Array / String / Object built-ins, the JSON wrapper objects of 15.12.2 step 3 and 15.12.3 step 9-10 all use [[DefineOwnProperty]]). Every call of (*object).put in package otto whose receiver is an object created in the same function (the result of one of the runtime's new* constructors) is reported: `Object.defineProperty(Object.prototype, '', {set: f})` would otherwise hijack JSON.stringify and JSON.parse(text, reviver). Positive witness: the census counts the put calls it classified",
+		Run: ruleFreshPut})
+}
+
+func ruleFreshPut(c *Ctx, r *R) {
+	nPut, nFresh := 0, 0
+	for _, fn := range c.AllSrcFuncs("") {
+		ord := 0
+		for _, b := range fn.Blocks {
+			for _, ins := range b.Instrs {
+				call, ok := ins.(*ssa.Call)
+				if !ok {
+					continue
+				}
+				callee := call.Call.StaticCallee()
+				if callee == nil || callee.Name() != "put" || callee.Signature.Recv() == nil || !typeIs(callee.Signature.Recv().Type(), ottoPath, "object") {
+					continue
+				}
+				nPut++
+				recv := normCell(call.Call.Args[0])
+				mk, ok := recv.(*ssa.Call)
+				if !ok {
+					continue
+				}
+				mc := mk.Call.StaticCallee()
+				if mc == nil || !strings.HasPrefix(mc.Name(), "new") || mc.Signature.Results().Len() != 1 {
+					continue
+				}
+				if pt, ok := mc.Signature.Results().At(0).Type().(*types.Pointer); !ok || !typeIs(pt.Elem(), ottoPath, "object") {
+					continue
+				}
+				nFresh++
+				ord++
+				key := fmt.Sprintf("%s:put-on-%s#%d", ssaFuncName(fn), mc.Name(), ord)
+				r.bad(key, c.Pos(instrPos(call)), fmt.Sprintf("%s gives a property to the object it has just made with %s by [[Put]]: a setter or read-only property of that name inherited from Object.prototype intercepts it (`Object.defineProperty(Object.prototype, '', {set: function(){}}); JSON.stringify(1)` is undefined); ES5 creates such properties with [[DefineOwnProperty]]", ssaFuncName(fn), mc.Name()))
+			}
+		}
+	}
+	r.check(nPut >= 5, "census", "-", fmt.Sprintf("%d calls of (*object).put classified, %d on freshly made objects", nPut, nFresh), fmt.Sprintf("only %d calls of (*object).put found: the census no longer sees the [[Put]] entry point", nPut))
 }
 
 func jsonBuiltins(c *Ctx) map[string]*ssa.Function {
